@@ -7,7 +7,7 @@ from mir2smt.exec import OpaqueV, IntV, BoolV, AggV, EnumV, RefV, UNIT, Stop, mk
 from mir2smt import envlib as E
 from mir2smt.builtins import deref
 
-CRATES = ["ckb-constant", "ckb-occupied-capacity-core", "ckb-types", "ckb-chain-spec", "ckb-script", "ckb-verification"]
+CRATES = ["ckb-constant", "ckb-occupied-capacity-core", "ckb-types", "ckb-chain-spec", "ckb-script", "ckb-verification", "ckb-verification-contextual", "ckb-snapshot"]
 U64 = (1 << 64) - 1
 B63 = 1 << 63
 VALUE = (1 << 56)
@@ -449,7 +449,95 @@ def m6_resolve_inputs(S):
 
 
 
-OBLIGATIONS = [m1_since_decode, m2_locks, m3_commit_position, m4_verify_loop, m5_cellbase_maturity, m6_resolve_inputs]
+def _fn_by_self(S, file_part, self_rx, short="verify"):
+    c = [f for f in S.prog.funcs if f.kind == "fn" and f.short == short and file_part in f.name and f.params and re.match(self_rx, f.params[0][1])]
+    if len(c) != 1:
+        raise Inconclusive(f"{self_rx}::{short}: {len(c)} candidates")
+    return c[0]
+
+
+ERRC = [(E.rx(r"as Into<.*Error>>::into$|Error as From<.*>>::from$|ErrorKind::because|::other$"), E.opaque_call())]
+
+
+def m7_tx_verifier_composition(S):
+    """the composite transaction verifiers accept only if every part ran and accepted: NonContextual (version, size, empty, duplicate deps,
+    outputs data, script hash type), TimeRelative (maturity, since), Contextual::verify / ::complete (time relative, capacity, scripts unless
+    skipped, fee); skipping scripts reports zero cycles"""
+    from mir2smt import compose as C
+    ob = "C04.m7"
+    TV = "transaction_verifier.rs"
+    # --- NonContextualTransactionVerifier::verify
+    ctx = S.ctx()
+    ctx.uninterpreted_unknown_calls = True
+    parts = [("version", r"VersionVerifier::<.*>::verify$"), ("size", r"SizeVerifier::<.*>::verify$"), ("empty", r"EmptyVerifier::<.*>::verify$"),
+             ("duplicate_deps", r"DuplicateDepsVerifier::<.*>::verify$"), ("outputs_data", r"OutputsDataVerifier::<.*>::verify$"), ("script_hash_type", r"ScriptHashTypeVerifier::<.*>::verify$")]
+    ctx.env = C.parts_env(parts) + ERRC
+    ps = S.run(ctx, _fn_by_self(S, TV, r"^&(?:'\w+ )?NonContextualTransactionVerifier<"), [ctx.ref_to(OpaqueV("nv", "NonContextualTransactionVerifier"))])
+    C.check(S, ctx, ob, "non_contextual", ps, [t for t, _ in parts], complete_when=[])
+    # --- TimeRelativeTransactionVerifier::verify
+    ctx = S.ctx()
+    ctx.uninterpreted_unknown_calls = True
+    parts = [("maturity", r"MaturityVerifier::verify$"), ("since", r"SinceVerifier::<.*>::verify$")]
+    ctx.env = C.parts_env(parts) + ERRC
+    ps = S.run(ctx, _fn_by_self(S, TV, r"^&(?:'\w+ )?TimeRelativeTransactionVerifier<"), [ctx.ref_to(OpaqueV("tv", "TimeRelativeTransactionVerifier"))])
+    C.check(S, ctx, ob, "time_relative", ps, [t for t, _ in parts], complete_when=[])
+    # --- ContextualTransactionVerifier::verify / complete
+    for short, script_rx, nargs in (("verify", r"ScriptsVerifier::<.*>::verify$", 3), ("complete", r"ScriptsVerifier::<.*>::complete$", 4)):
+        ctx = S.ctx()
+        ctx.uninterpreted_unknown_calls = True
+        parts = [("time_relative", r"TimeRelativeTransactionVerifier::<.*>::verify$"), ("capacity", r"CapacityVerifier::verify$"), ("script", script_rx), ("fee", r"FeeCalculator::<.*>::transaction_fee$")]
+        ctx.env = C.parts_env(parts) + ERRC
+        skip = ctx.bool("skip_script_verify"); mx = ctx.int("max_cycles", "u64")
+        args = [ctx.ref_to(OpaqueV("cv", "ContextualTransactionVerifier")), mx, skip] + ([ctx.ref_to(OpaqueV("state", "TransactionState"))] if nargs == 4 else [])
+        ps = S.run(ctx, _fn_by_self(S, TV, r"^&(?:'\w+ )?ContextualTransactionVerifier<", short), args)
+        C.check(S, ctx, ob, f"contextual_{short}", ps, [t for t, _ in parts], assume=[T.not_(skip.t)], complete_when=[])
+        C.check(S, ctx, ob, f"contextual_{short}_skip_scripts", ps, ["time_relative", "capacity", "fee"], assume=[skip.t], complete_when=[])
+        # the reported cycles/fee are the script part's and the fee part's results; zero cycles when scripts are skipped
+        forder = None
+        from mir2smt.srcinfo import struct_fields
+        forder = struct_fields("verification/src/cache.rs", "Completed")
+        for k, p in enumerate(returns(ps)):
+            v = p.value
+            okp = v.payload(0) if isinstance(v, EnumV) else None
+            if not okp or not isinstance(okp[0], AggV):
+                continue
+            comp = dict(zip(forder, okp[0].fields))
+            cyc = comp["cycles"]
+            called_script = bool(C.called(p, "script"))
+            want = ctx.int("val.script.0", "u64").t if called_script else 0
+            S.prove(ctx, ob, f"contextual_{short}_path{k}_cycles_are_the_script_result", [p.cond(), T.eq(v.disc, 0)], T.eq(as_int(cyc), want))
+            S.prove(ctx, ob, f"contextual_{short}_path{k}_script_gets_max_cycles", [p.cond(), T.eq(v.disc, 0)],
+                    bool(all(any(isinstance(a, IntV) and a.t == mx.t for a in e[2]) for e in C.called(p, "script"))))
+
+
+def m8_header_dep_on_main_chain(S):
+    """HeaderChecker::check_valid as used by block verification (VerifyContext) and by the pool (Snapshot): a header dep is valid iff the
+    referenced block is on the main chain and its header is stored"""
+    ob = "C04.m8"
+    for label, file_part, self_rx in (("verify_context", "contextual_block_verifier.rs", r"^&(?:'\w+ )?VerifyContext<"), ("snapshot", "util/snapshot/src/lib.rs", r"^&(?:'\w+ )?Snapshot$")):
+        ctx = S.ctx()
+        ctx.uninterpreted_unknown_calls = True
+        main = ctx.bool("is_main_chain"); stored = ctx.bool("header_stored")
+        seen = []
+
+        def is_main(ex, c, a, d):
+            seen.append(("is_main_chain", getattr(deref(ex, a[-1]), "name", "?")))
+            return main
+
+        def get_hdr(ex, c, a, d):
+            seen.append(("get_block_header", getattr(deref(ex, a[-1]), "name", "?")))
+            return mk_option(stored.t, OpaqueV("hdr", "HeaderView"), d)
+        ctx.env = [(E.rx(r"is_main_chain$"), is_main), (E.rx(r"get_block_header$"), get_hdr), (E.rx(r"Byte32 as Clone>::clone$"), lambda ex, c, a, d: deref(ex, a[0]))] + ERRC
+        f = _fn_by_self(S, file_part, self_rx, "check_valid")
+        ps = S.run(ctx, f, [ctx.ref_to(OpaqueV("me", "Self")), ctx.ref_to(OpaqueV("block_hash", "Byte32"))])
+        ok = T.or_(*[T.and_(p.cond(), T.eq(p.value.disc, 0)) for p in returns(ps)])
+        S.prove(ctx, ob, f"{label}_valid_iff_on_main_chain_and_stored", [], T.and_(T.not_(cond_of(panics(ps))), T.iff(ok, T.and_(main.t, stored.t))))
+        S.prove(ctx, ob, f"{label}_both_lookups_use_the_given_hash", [], bool(seen and all(n == "block_hash" for _, n in seen) and {k for k, _ in seen} == {"is_main_chain", "get_block_header"}),
+                extra={"note": str(seen)})
+        S.witness(ctx, ob, f"{label}_reach", [], ok)
+
+
+OBLIGATIONS = [m1_since_decode, m2_locks, m3_commit_position, m4_verify_loop, m5_cellbase_maturity, m6_resolve_inputs, m7_tx_verifier_composition, m8_header_dep_on_main_chain]
 
 
 def validate(S, native):
